@@ -334,39 +334,35 @@ def r2_2(ctx: Ctx) -> RuleResult:
             return ev
 
         flow = must_flow(fn.node, refine_events=refine2)
-        # the variables holding the evaluated operands
-        operands = set()
-        first_assign = {}
-        for node in ast.walk(fn.node):
-            if isinstance(node, ast.Assign) and isinstance(node.targets[0], ast.Name):
-                v = node.value.value if isinstance(node.value, ast.Await) else node.value
-                if isinstance(v, ast.Call) and callee_name(v) in ("evaluate", "evaluate_async"):
-                    operands.add(node.targets[0].id)
-                    first_assign[node.targets[0].id] = node
-        if len(operands) < 2:
+        # every unwrapping `X[0].obj`, wherever it is written
+        unwraps = [
+            n for n in ast.walk(fn.node)
+            if isinstance(n, ast.Attribute) and n.attr == "obj" and isinstance(n.value, ast.Subscript)
+            and isinstance(n.value.slice, ast.Constant) and n.value.slice.value == 0 and path_of(n.value.value)
+        ]
+        evaluated = [c for c in calls(fn.node) if callee_name(c) in ("evaluate", "evaluate_async")]
+        if len(evaluated) < 2:
             raise AnalysisError(f"R2.2: cannot find the evaluated operands in {fn.qualname}")
-        for node in ast.walk(fn.node):
-            if not (isinstance(node, ast.Assign) and isinstance(node.targets[0], ast.Name) and node.targets[0].id in operands):
-                continue
-            var = node.targets[0].id
-            if node is first_assign.get(var):
-                continue
-            st = flow.pre.get(id(node)) or frozenset()
-            v = node.value
-            is_first_obj = (
-                isinstance(v, ast.Attribute) and v.attr == "obj" and isinstance(v.value, ast.Subscript)
-                and path_of(v.value.value) == var and isinstance(v.value.slice, ast.Constant) and v.value.slice.value == 0
-            )
+        if len(unwraps) < 2:
+            rr.bad(fn, fn.node, "the operands of a comparison are no longer unwrapped from single-node lists "
+                   f"({len(unwraps)} unwrapping expression(s) for two operands)", construct=f"{name}: unwrapping missing")
+        for n in unwraps:
+            var = path_of(n.value.value)  # type: ignore[attr-defined]
+            st = flow.at.get(id(n)) or frozenset()
             if "not_logical@" not in st:
-                rr.bad(fn, node, "a node list is unwrapped to a value for a logical operator too: "
+                rr.bad(fn, n, "a node list is unwrapped to a value for a logical operator too: "
                        "`@.a && @.b` would then test the truthiness of the values instead of existence",
-                       construct=short(node))
-            elif not is_first_obj or "single@" + var not in st:
-                rr.bad(fn, node, f"the operand `{var}` is converted with `{short(v)}` without being a node list of "
+                       construct=short(n))
+            elif "single@" + str(var) not in st:
+                rr.bad(fn, n, f"the operand `{var}` is converted with `{short(n)}` without being a node list of "
                        "exactly one node: an empty node list must stay Nothing (it equals only Nothing) and a "
-                       "multi-node list is not a value", construct=short(node))
+                       "multi-node list is not a value", construct=short(n))
             else:
-                rr.ok(fn.loc(node), f"{fn.qualname}: `{short(node)}` only for a single-node list under a comparison")
+                rr.ok(fn.loc(n), f"{fn.qualname}: `{short(n)}` only for a single-node list under a comparison")
+        # nothing else turns an operand into one of its parts
+        for n in ast.walk(fn.node):
+            if isinstance(n, ast.Subscript) and isinstance(n.ctx, ast.Load) and not any(n is u.value for u in unwraps):
+                rr.bad(fn, n, f"`{short(n)}` takes an operand apart other than by `[0].obj` of a single-node list", construct=short(n))
     return rr
 
 
